@@ -116,8 +116,8 @@ func (b *refBug) satisfies(c clause) bool {
 			}
 		}
 		return false
-	case "title": // "matches bugs with a title containing ..."
-		return strings.Contains(b.Title, c.Value)
+	case "title": // "matches bugs with a title containing ..."; "queries are case insensitive" (doc/queries.md)
+		return strings.Contains(lower(b.Title), lower(c.Value))
 	case "nolabel":
 		return len(b.Labels) == 0
 	case "metadata":
@@ -137,7 +137,7 @@ func (b *refBug) satisfies(c clause) bool {
 }
 
 // distinguishing reports why a clause would make the reference depend on something the statement
-// and the documentation leave open (case sensitivity of label, title, metadata and free-text
+// and the documentation leave open (case sensitivity of label, metadata and free-text
 // matching; stemming of search words): such clauses must not be in the catalogue.
 func distinguishing(bugs []refBug, c clause) string {
 	for i := range bugs {
@@ -148,10 +148,6 @@ func distinguishing(bugs []refBug, c clause) string {
 				if (l == c.Value) != strings.EqualFold(l, c.Value) {
 					return fmt.Sprintf("label %q differs from %q only by case", l, c.Value)
 				}
-			}
-		case "title":
-			if strings.Contains(b.Title, c.Value) != strings.Contains(lower(b.Title), lower(c.Value)) {
-				return fmt.Sprintf("title %q contains %q only up to case", b.Title, c.Value)
 			}
 		case "metadata":
 			for k, v := range b.CreateMeta {
